@@ -56,4 +56,5 @@ def call_catch(fn):
     try:
         return "return", fn()
     except SymRaise as e:
+        e.exc.where = e.where
         return "raise", e.exc
